@@ -21,7 +21,7 @@ type fileCase struct {
 	Request string `json:"request"` // how the library is asked for it
 }
 
-var fileLayouts = []string{"plain", "dated", "two-dates", "subdirectory", "dated-in-subdirectory", "symlink"}
+var fileLayouts = []string{"plain", "dated", "two-dates", "subdirectory", "dated-in-subdirectory", "symlink", "current-directory", "current-directory-dated"}
 var fileRequests = []string{"read-by-name", "import-met-by-process", "getmodule", "read-by-path"}
 
 func checkFilesCase(fc fileCase) *fail {
@@ -55,6 +55,22 @@ func checkFilesCase(fc fileCase) *fail {
 			path = filepath.Join(d1, "...")
 		case "symlink":
 			actual = filepath.Join(d1, "fm.yang")
+		case "current-directory", "current-directory-dated":
+			// the file lies in the directory the process stands in (the search path holds another,
+			// empty directory): it is opened under its bare name, which is what positions say
+			actual = "fm.yang"
+			if fc.Layout == "current-directory-dated" {
+				actual = "fm@2021-03-04.yang"
+			}
+			path = filepath.Join(root, "store")
+			wd, err := os.Getwd()
+			if err != nil {
+				panic(err)
+			}
+			if err := os.Chdir(d1); err != nil {
+				panic(err)
+			}
+			defer os.Chdir(wd)
 		}
 		if fc.Layout == "symlink" {
 			target := filepath.Join(root, "store", "f1")
